@@ -758,4 +758,82 @@ theorem ids_roundtrip {ids : List Id} {rows st : List (List Id)} {pt : List (Lis
   rw [List.getElem?_eq_getElem hkl, hki] at hj
   exact (Option.some.inj hj).symm
 
+/-! ### once-only facets, facet level (added for `C09_surface_once_only`) -/
+
+theorem insertFacet_perm (f : List Nat) (l : List (List Nat)) : (insertFacet f l).Perm (f :: l) := by
+  induction l with
+  | nil => simp [insertFacet]
+  | cons g t ih =>
+    simp only [insertFacet]
+    split
+    · exact (List.Perm.cons g ih).trans (List.Perm.swap f g t)
+    · exact List.Perm.refl _
+
+theorem sortFacets_perm (fs : List (List Nat)) : (sortFacets fs).Perm fs := by
+  induction fs with
+  | nil => simp [sortFacets]
+  | cons f t ih =>
+    have : sortFacets (f :: t) = insertFacet f (sortFacets t) := rfl
+    rw [this]
+    exact (insertFacet_perm f _).trans (List.Perm.cons f ih)
+
+/-- the entries that occur exactly once in a list are pairwise distinct -/
+theorem nodup_filter_count_one {κ : Type} [BEq κ] [LawfulBEq κ] (l : List κ) :
+    (l.filter fun k => l.count k == 1).Nodup := by
+  rw [List.nodup_iff_count_le_one]
+  intro a
+  by_cases ha : (l.count a == 1) = true
+  · rw [List.count_filter (p := fun k => l.count k == 1) ha]; exact Nat.le_of_eq (by simpa using ha)
+  · have : a ∉ l.filter fun k => l.count k == 1 := fun hm => ha (List.mem_filter.mp hm).2
+    rw [List.count_eq_zero_of_not_mem this]; exact Nat.zero_le _
+
+/-- the rows kept by `_extract_surface` have pairwise different vertex sets -/
+theorem onceOnly_keys_nodup (fs : List (List Nat)) : ((onceOnly fs).map faceKey).Nodup := by
+  have hperm : ((onceOnly fs).map faceKey).Perm
+      ((fs.filter fun f => (fs.map faceKey).count (faceKey f) == 1).map faceKey) :=
+    (sortFacets_perm _).map _
+  rw [hperm.nodup_iff]
+  have : (fs.filter fun f => (fs.map faceKey).count (faceKey f) == 1).map faceKey =
+      (fs.map faceKey).filter fun k => (fs.map faceKey).count k == 1 := by
+    rw [List.filter_map]; rfl
+  rw [this]
+  exact nodup_filter_count_one (fs.map faceKey)
+
+theorem numberFrom_vals {s ty : Nat} (rows : List β) : (numberFrom s ty rows).map (·.val) = rows := by
+  unfold numberFrom
+  rw [List.map_map]
+  have : ((fun e : Ent β => e.val) ∘ fun (p : β × Nat) => (⟨s + p.2 + 1, ty, p.1⟩ : Ent β)) = Prod.fst := rfl
+  rw [this]
+  exact List.zipIdx_map_fst _ _
+
+/-- the payloads of the new surface elements, in element-id order: the triangle rows, then the quadrangle rows -/
+theorem surfaceElems_vals (tris quads : List (List Id)) :
+    (surfaceElems tris quads).flatten.map (·.val) = tris ++ quads := by
+  have hflat : (surfaceElems tris quads).flatten = numberFrom 0 3 tris ++ numberFrom tris.length 5 quads := by
+    unfold surfaceElems
+    cases h1 : numberFrom 0 3 tris with
+    | nil => cases h2 : numberFrom tris.length 5 quads <;> simp [List.filter]
+    | cons a t => cases h2 : numberFrom tris.length 5 quads <;> simp [List.filter]
+  rw [hflat, List.map_append, numberFrom_vals, numberFrom_vals]
+
+/-- Horner keys with digits below the base determine the digits -/
+theorem radixKey_aux {B : Nat} : ∀ (r s : List Nat) (k k' : Nat), r.length = s.length →
+    (∀ x ∈ r, x < B) → (∀ x ∈ s, x < B) →
+    r.foldl (fun k d => k * B + d) k = s.foldl (fun k d => k * B + d) k' → k = k' ∧ r = s
+  | [], [], _, _, _, _, _, h => ⟨h, rfl⟩
+  | x :: t, y :: u, k, k', hl, hr, hs, h => by
+    simp only [List.foldl_cons] at h
+    obtain ⟨hk, htu⟩ := radixKey_aux t u _ _ (by simpa using hl)
+      (fun z hz => hr z (List.mem_cons_of_mem _ hz)) (fun z hz => hs z (List.mem_cons_of_mem _ hz)) h
+    have hx := hr x (by simp)
+    have hy := hs y (by simp)
+    have hB : 0 < B := by omega
+    have h1 : (B * k + x) / B = (B * k' + y) / B := by rw [Nat.mul_comm B k, Nat.mul_comm B k', hk]
+    have h2 : (B * k + x) % B = (B * k' + y) % B := by rw [Nat.mul_comm B k, Nat.mul_comm B k', hk]
+    rw [Nat.mul_add_div hB, Nat.mul_add_div hB, Nat.div_eq_of_lt hx, Nat.div_eq_of_lt hy] at h1
+    rw [Nat.mul_add_mod, Nat.mul_add_mod, Nat.mod_eq_of_lt hx, Nat.mod_eq_of_lt hy] at h2
+    exact ⟨by omega, by rw [h2, htu]⟩
+  | [], _ :: _, _, _, hl, _, _, _ => by simp at hl
+  | _ :: _, [], _, _, hl, _, _, _ => by simp at hl
+
 end Femio.SubMesh
